@@ -42,7 +42,7 @@ def mk_gen(env, name, n, sort, flow_id, out, delay0=None, smax=None):
     sizes = Draws(name + 's', 'int', n + 1, lo=1, after=1)
     if smax:
         sizes = DrawsBounded(name + 's', n + 1, smax)
-    d0 = delay0 if delay0 is not None else 0
+    d0 = delay0 if delay0 is not None else sym_num(name + 'd0', sort, 0)
     g = DistPacketGenerator(env, name, gaps, sizes, initial_delay=d0, flow_id=flow_id)
     g.out = out
     return g, gaps, sizes, d0
@@ -192,8 +192,8 @@ def h_pipe(cfg):
             sched.out = L2
             port.out = L_sink
             smax = cfg.get('smax', 3200) if cfg['kind'] == 'DRR' else None
-            gens.append(mk_gen(env, 'G0', n, sort, 0, L0, smax=smax) + (L0,))
-            gens.append(mk_gen(env, 'G1', cfg.get('n1', 1), sort, 1, L1, smax=smax) + (L1,))
+            gens.append(mk_gen(env, 'G0', n, sort, 0, L0, smax=smax, delay0=0) + (L0,))
+            gens.append(mk_gen(env, 'G1', cfg.get('n1', 1), sort, 1, L1, smax=smax, delay0=0) + (L1,))
             elements = [('c08.sched', [L0, L1], [L2], {}), ('c08.port', [L2], [L_sink], {'port': port})]
         elif pipe == 'fanout-demux':
             p0 = Port(env, 8, None, False, 'p0')
@@ -206,8 +206,8 @@ def h_pipe(cfg):
             Lo0, Lo1 = Link(env, 'p0->sink', L_sink), Link(env, 'p1->sink', L_sink)
             p0.out, p1.out = Lo0, Lo1
             gens.append(mk_gen(env, 'G0', n, sort, 0, L0) + (L0,))
-            gens.append(mk_gen(env, 'G1', 1, sort, 1, L1) + (L1,))
-            gens.append(mk_gen(env, 'G2', 1, sort, 2, L2) + (L2,))     # no route for flow 2: discarded by rule
+            gens.append(mk_gen(env, 'G1', 1, sort, 1, L1, delay0=0) + (L1,))
+            gens.append(mk_gen(env, 'G2', 1, sort, 2, L2, delay0=0) + (L2,))     # no route for flow 2: discarded by rule
             elements = [('c08.demux', [L0, L1, L2], [La, Lb], {'noroute': 2}), ('c08.port', [La], [Lo0], {'port': p0}),
                         ('c08.port', [Lb], [Lo1], {'port': p1})]
         elif pipe == 'switch':
@@ -221,8 +221,8 @@ def h_pipe(cfg):
             Lo0, Lo1 = Link(env, 'sw0->sink', L_sink), Link(env, 'sw1->sink', L_sink)
             sw.ports[0].out, sw.ports[1].out = Lo0, Lo1
             smax = cfg.get('smax', 3200) if cfg['server'] == 'DRR' else None
-            gens.append(mk_gen(env, 'G0', n, sort, 0, L0, smax=smax) + (L0,))
-            gens.append(mk_gen(env, 'G1', 1, sort, 1, L1, smax=smax) + (L1,))
+            gens.append(mk_gen(env, 'G0', n, sort, 0, L0, smax=smax, delay0=0) + (L0,))
+            gens.append(mk_gen(env, 'G1', 1, sort, 1, L1, smax=smax, delay0=0) + (L1,))
             elements = [('c08.switch', [L0, L1], [Lo0, Lo1], {})]
         elif pipe == 'tb-sp':
             tb = TokenBucket(env, 8, 4, peak=cfg.get('peak'))
@@ -233,7 +233,7 @@ def h_pipe(cfg):
             tb.out = L1
             sp.out = L_sink
             gens.append(mk_gen(env, 'G0', n, sort, 0, L0) + (L0,))
-            gens.append(mk_gen(env, 'G1', 1, sort, 1, L2) + (L2,))
+            gens.append(mk_gen(env, 'G1', 1, sort, 1, L2, delay0=0) + (L2,))
             elements = [('c08.tb', [L0], [L1], {}), ('c08.sched', [L1, L2], [L_sink], {})]
         elif pipe == 'trtb-wire':
             tb = TwoRateTokenBucket(env, 8, 4, 16, 6)
